@@ -122,10 +122,10 @@ Section Safekeeper.
     end.
 
   (** wsync.ApplySingleFull, OpBlockRange: the size of the op ... *)
-  Definition range_size (f : skfile A H) (bi span : N) : N :=
+  Definition range_size (fileSize bi span : N) : N :=
     let fixedSize := (span - 1) * bs in
     let lastIndex := bi + (span - 1) in
-    let lastSize := if fsize f <? bs * (lastIndex + 1) then fsize f mod bs else bs in
+    let lastSize := if fileSize <? bs * (lastIndex + 1) then fileSize mod bs else bs in
     fixedSize + lastSize.
 
   (** ... and io.CopyBuffer(output, io.LimitReader(target, opSize), buffer): an io.EOF from the
@@ -188,7 +188,7 @@ Section Safekeeper.
     match pat with
     | PCopy => copy_loop (2 * length (factual f) + 2) f (sk_get_reader p fi)
     | PRange bi span =>
-      let size := range_size f bi span in
+      let size := range_size (fsize f) bi span in
       range_loop (S (N.to_nat size)) f (sk_seek (sk_get_read_seeker p fi) (bs * bi)) size
     | PChunks cis => chunk_loop f (sk_seek_end f (sk_get_read_seeker p fi)) cis
     end.
